@@ -214,6 +214,52 @@ def rule_csv_tables(ctx: Ctx) -> RuleResult:
                     elif isnone:
                         other_ok = other_ok or (v[0] == "call" and v[1] == ("builtin", "str"))
                         r.ob(v[0] == "call" and v[1] == ("builtin", "str"), lambda v=v: mk_finding("CS-1", spec, None, cfg, p, "numbers and booleans must be written with str(); written as %s" % show(v), extra="str"))
+    # the header line: once, before the first row, when header is True
+    inits = {}
+    for s in site.subscribe_fn.body:
+        if isinstance(s, ast.Assign) and len(s.targets) == 1 and isinstance(s.targets[0], ast.Name):
+            inits[s.targets[0].id] = s.value
+    saw_header = saw_plain = False
+    for cfg in valuations(ctx.space(spec)):
+        for p in ctx.paths(spec, None, cfg, max_iter=1):
+            if not _normal(p):
+                continue
+            ems = [x for x in emissions(p) if x.method == "on_next"]
+            if not ems:
+                continue
+            heads = [x for x in ems[:-1]]
+            if not heads:
+                saw_plain = True
+                continue
+            saw_header = True
+            # the 'first row' flag: a closure variable tested on this path and switched to the opposite constant on it
+            polarity = {}
+            for e in p.trace:
+                if e.k != "decision":
+                    continue
+                tt, pol = e.test, e.outcome
+                while tt[0] == "not":
+                    tt, pol = tt[1], not pol
+                if tt[0] == "free":
+                    polarity[tt[1]] = pol
+                elif tt[0] == "cmp" and tt[1] in ("Is", "Eq", "IsNot", "NotEq") and tt[2][0] == "free" and tt[3][0] == "const" and isinstance(tt[3][1], bool):
+                    polarity[tt[2][1]] = (pol == (tt[1] in ("Is", "Eq"))) == tt[3][1]
+            flag = [e for e in p.trace if e.k == "nonlocal" and e.name in polarity and e.value == ("const", not polarity[e.name])]
+            started = False
+            for e in flag:
+                init = inits.get(e.name)
+                if isinstance(init, ast.Constant):
+                    started = started or init.value is polarity[e.name]
+                elif init is not None:
+                    # computed when the subscription is made: it must depend on the header parameter
+                    started = started or any(isinstance(x, ast.Name) and x.id == "header" for x in ast.walk(init))
+            fields = any(x == ("attr", EV, "_fields") for h in heads for x in subterms(h.eff.arg))
+            ok = len(heads) == 1 and cfg.get("header") in ("True", None) and bool(flag) and started and fields
+            r.ob(ok, lambda p=p, cfg=cfg, heads=heads, flag=flag: mk_finding(
+                "CS-1", spec, None, cfg, p, "the header (the field names of the item) must be written once, before the first row, only when header is True, and the "
+                "'first row' flag must be switched on that path (it %s): otherwise the header comes back with every row; path emits %s" % (
+                    "is" if flag else "is not", summary(p)), extra="header"))
+    r.ob(saw_header and saw_plain, lambda: Finding("CS-1", "%s::dump{header}" % CSV, site.where(), "dump must have a path that writes the header before the first row and one that writes a row only"))
     want_w = [("<escapechar>", "<escapechar><escapechar>"), ('"', '<escapechar>"')]
     r.ob(writer == want_w, lambda: Finding("CS-1", "%s::dump{escape-table}" % CSV, site.where(),
                                            "dump must double the escape character and then escape the quote; it applies %s" % writer))
@@ -542,6 +588,7 @@ def rule_csv_classify(ctx: Ctx) -> RuleResult:
             continue
         OUT = p.value
         is_open = False
+        open_var = None
         for it in its:
             T = it.var
             pos = p.trace.index(it)
@@ -604,8 +651,17 @@ def rule_csv_classify(ctx: Ctx) -> RuleResult:
             # state after this iteration, as the table defines it
             if act == "open":
                 is_open = True
+                open_var = opens[0].name
             elif act == "close":
                 is_open = False
+                # the code's own record of the open field must be dropped too (the enumeration stops after two pieces: a third
+                # piece would otherwise be appended to the field that was just emitted)
+                resets = [e for e in body if e.k == "assign" and e.name == open_var and e.value == ("const", None)]
+                if first_time:
+                    r.ob(bool(resets), lambda it=it, decs=decs: Finding(
+                        "CS-3", "%s::merge_escape_parts{reset}" % CSV, m.where(decs[-1].node if decs else it.node),
+                        "after a quoted field is closed and emitted the merger must forget it (%s = None): the next pieces are otherwise added to the "
+                        "field that was already emitted" % open_var, trace_of(p)))
             elif act not in ("emit", "continue"):
                 break
     missing = [(c, o) for c in _PIECES for o in (False, True) if (c, o) not in covered]
